@@ -141,7 +141,30 @@ def unit_choices(body, flags):
             ch = pick(inner[0][0], inner[0][1], flags)
             if ch and ch not in out:
                 out.append(ch)
-    return [u for u in out if u]
+    # every alternative of a branch on its own, and the characters two different items of the group both accept (the
+    # ambiguity of (a|ab|b)* or (\w|_\w)* only shows on those)
+    sets = []
+
+    def scan(items):
+        for op, av in items:
+            name = str(op)
+            if name in ("LITERAL", "NOT_LITERAL", "ANY", "IN"):
+                sets.append(members(op, av, flags))
+            elif name in ("MAX_REPEAT", "MIN_REPEAT"):
+                scan(list(av[2]))
+            elif name == "SUBPATTERN":
+                scan(list(av[3]))
+            elif name == "BRANCH":
+                for alt in av[1]:
+                    t = render(list(alt), flags)
+                    if t and t not in out:
+                        out.append(t)
+                    scan(list(alt))
+    scan(body)
+    for ch in "_a0 .-/":
+        if sum(1 for m in sets if ord(ch) in m) >= 2 and ch not in out:
+            out.append(ch)
+    return [u for u in out if u][:6]
 
 
 SPOILERS = ["", "!", "(", "[0]", " + 1", "\x01"]
@@ -181,7 +204,27 @@ LINE_POSITIONS = [
     ("try", "try:\n    {L}\nexcept Exception:\n    y = 0\n"),
     ("rhs", "h = {S}\n"),
     ("else", "n = 3\nif n > 1:\n    n = 2\nelse:\n    {L}\n"),
+    # clause headers only meet their pattern in their structural context
+    ("after-try", "try:\n    led.on()\n{L}\n    led.off()\n"),
+    ("after-if", "n = 3\nif n > 1:\n    led.on()\n{L}\n    led.off()\n"),
+    ("header", "{L}\n    led.on()\n"),
+    ("after-try-in-loop", "while True:\n    try:\n        led.on()\n    {L}\n        led.off()\n"),
+    ("after-if-in-def", "def f(n):\n    if n > 1:\n        led.on()\n    {L}\n        led.off()\n    return 1\ny = f(1)\n"),
 ]
+N_PLAIN_POSITIONS = 8
+
+
+def forced_positions(entry):
+    """the structural contexts a pattern needs to be reached at all (decided from its text)"""
+    pat = entry["pattern"]
+    out = []
+    if "except" in pat:
+        out += ["after-try", "after-try-in-loop"]
+    if "elif" in pat or "else" in pat:
+        out += ["after-if", "after-if-in-def"]
+    if pat.rstrip("$").rstrip().endswith((":\\s*", ":")):
+        out.append("header")
+    return out
 # where an argument can stand (patterns applied to a piece of a line: pin names, identifiers)
 ARG_POSITIONS = ["led = Led({A})\n", "x = analog_read({A})\n", "pin_mode({A}, OUTPUT)\n", "digital_write({A}, 1)\n", "btn = Button({A})\n",
                  "pot = Potentiometer({A})\n", "sv = Servo({A})\n", "us = Ultrasonic({A}, 8)\n", "bz = Buzzer({A})\n", "target({A})\n",
@@ -203,7 +246,9 @@ def pump_scripts(inv, n, positions=None, only=None):
         applied_to_line = e["module_level"] and e["name"].startswith("RE_")
         for j, (lab, line, parts) in enumerate(lines):
             if applied_to_line:
-                pos = LINE_POSITIONS if positions is None else [LINE_POSITIONS[0]] + [LINE_POSITIONS[1 + (k + j + q) % (len(LINE_POSITIONS) - 1)] for q in range(positions - 1)]
+                pos = LINE_POSITIONS if positions is None else [LINE_POSITIONS[0]] + [LINE_POSITIONS[1 + (k + j + q) % (N_PLAIN_POSITIONS - 1)] for q in range(positions - 1)]
+                if positions is not None:
+                    pos = pos + [p for p in LINE_POSITIONS if p[0] in forced_positions(e) and p not in pos]
                 for pname, tpl in pos:
                     body = tpl.replace("{L}", line.strip() if pname != "top" else line).replace("{S}", line.strip())
                     out.append(({"regex": e["name"], "label": lab, "position": pname, "n": n, "line": line, "parts": parts}, PUMP_HEADER + body))
